@@ -1,5 +1,6 @@
 import HcipyVerif.Lemmas.GridMut
 import HcipyVerif.Lemmas.GridHeap
+import HcipyVerif.Lemmas.GridOld
 
 /-!
 # C10 — Grid identity: equality is an equivalence consistent with hashing
@@ -488,7 +489,7 @@ theorem Old.sepEq_eq_of_rect (a b : List (List Rat)) (ha : rect a = true) (hb : 
 /-- D24: the old hash fed dtype-dependent bytes: an integer-typed and a float-typed regular grid
 compare equal but hash differently. -/
 theorem Old.hash_int_float :
-    ∃ a b : List RegAxisOld, regEqOld a b = true ∧ regHashInputOld a ≠ regHashInputOld b :=
+    ∃ a b : List Old.RegAxisOld, Old.regEqOld a b = true ∧ Old.regHashInputOld a ≠ Old.regHashInputOld b :=
   ⟨[⟨⟨1, true⟩, 4, ⟨0, true⟩⟩], [⟨⟨1, false⟩, 4, ⟨0, false⟩⟩], by decide, by decide⟩
 
 example : ∃ g : Grid, g.coords.WF := ⟨⟨.cartesian, .separated [[0, 1, 2], [0, 1]], .none⟩, by decide⟩
